@@ -6,7 +6,7 @@ PROP = "C15"
 BUDGET = {"quick": 1200, "thorough": 30000}
 ALARM_S = 900
 RULE = ("seeded random event models x grids (uniform / non-uniform, array / list / tuple, starting at t0 or later, some "
-        "extending past extinction) x {exact, tau} x R seam; the identical stream is run once with a scalar horizon (the "
+        "extending past extinction; in half of the exact runs extra requested times are placed 1e-5 .. 3e-12 (relative) before or after actual event times of the underlying path: fault G.near_event) x {exact, tau} x R seam; the identical stream is run once with a scalar horizon (the "
         "underlying paths) and once gridded; non-trivial = an exact-mode gridded run whose underlying paths fired >= 3 "
         "events in total; distinct = distinct case digests")
 MEASURE = "distinct (grid length, grid type, starts at t0, algorithm, R mode) tuples"
@@ -23,7 +23,10 @@ def generate(seed, tier):
     S = core.Streams(seed)
     rng = S("c15")
     force = {"grid": "only", "exact": rng.random() < 0.8}
-    return jump.gen_case(S, tier, PROP, force)
+    case = jump.gen_case(S, tier, PROP, force)
+    if any(op.get("adv") for op in case["ops"]):
+        case["batch"] = "fault_injecting"
+    return case
 
 
 def execute(case):
